@@ -10,7 +10,8 @@ import copy
 
 
 def vt(version):
-    return tuple(int(x) for x in version.split("."))
+    """'0.3' -> (0, 3); a trailing letter names a dialect of that version ('0.3v', '1.0s') and is ignored here"""
+    return tuple(int(x) for x in version.rstrip("abcdefghijklmnopqrstuvwxyz").split("."))
 
 
 # ---- composeinfo ----------------------------------------------------------------------------------
